@@ -1,7 +1,7 @@
 (* C18 — tactics used by the generated correspondence cases (coq/Cases/C18*, never committed). *)
 From Coq Require Import Reals Lra Lia List String ZArith Arith.
 From Interval Require Import Tactic.
-From SpdVerif Require Import Base.Rx Base.PolingBase Gen.Poling Gen.Sweep Spec.SweepPaths Model.Sweep Proofs.C18_table Proofs.C18_frame.
+From SpdVerif Require Import Base.Rx Base.PolingBase Gen.Poling Gen.Sweep Spec.SweepPaths Model.Sweep Proofs.C18_angles.
 Import ListNotations.
 Local Open Scope R_scope.
 
